@@ -162,12 +162,14 @@ class SmartMedium:
         """
         if not isinstance(data, bytes):
             raise TypeError(data)
+        if data == b"":
+            # Nothing to push back; in particular this must not trip over
+            # bytes that are already waiting for the next request.
+            return
         if self._push_back_buffer is not None:
             raise AssertionError(
                 f"_push_back called when self._push_back_buffer is {self._push_back_buffer!r}"
             )
-        if data == b"":
-            return
         self._push_back_buffer = data
 
     def _get_push_back_buffer(self):
